@@ -1328,5 +1328,6 @@ fn main() {
             std::process::exit(2);
         }
     }
+    rep.obs("proc_listings_that_missed_a_live_thread", procmon::SCAN_GLITCHES.load(Ordering::Relaxed));
     std::process::exit(rep.finish(args.get("out")));
 }
